@@ -66,11 +66,38 @@ def gen_input(rng, tier):
     inp = c02.gen_history(rng, tier, force="valid")
     for st in inp["stations"]:
         st["phase"] = rng.choice([30, -90, 150, 30, -90, 150, 0, 17.5, 180, -33.25])
+    cancel = None
+    if rng.random() < 0.3:
+        # EXACT cancellation: one bidirectional station hosts a single session (ideal battery far from its limits, so
+        # actual = pilot) that is charged and discharged symmetrically (+p, -p, +p, -p ... on dyadic p): the recorded
+        # rates of that station are non-zero but sum to exactly 0 over the run
+        s0 = rng.randrange(len(inp["stations"]))
+        inp["stations"][s0]["kind"] = ("C", -32, 32)
+        inp["sessions"] = [s for s in inp["sessions"] if s["station"] != s0]
+        a, k = rng.randint(0, 3), rng.randint(1, 3)
+        inp["sessions"].append(dict(station=s0, arrival=a, departure=a + 2 * k, requested=30.0,
+                                    battery=dict(kind="ideal", cap=100, init=50.0, maxp=50, tsoc=0, noise=0)))
+        p = rng.choice([16.0, 8.0, 0.5, 32.0])
+        inp["max_recompute"] = 1
+        last = max(s["departure"] for s in inp["sessions"])
+        while len(inp["script"]) < last + 2:
+            inp["script"].append({})
+        inp["script"] = [{key: v[:1] for key, v in ent.items()} for ent in inp["script"]]
+        for t in range(len(inp["script"])):
+            inp["script"][t][str(s0)] = [(p if (t - a) % 2 == 0 else -p) if a <= t < a + 2 * k else 0.0]
+        inp.pop("interrupts", None)
+        cancel = dict(station=s0, arrival=a, k=k, p=p)
+        inp["cancel"] = cancel
     # whole minutes, whole seconds, FRACTIONAL seconds (0.025 min = 1.5 s, 12.5/60 min = 12.5 s) and periods p for
     # which the float product p*60 is not an integer (4.1*60 == 245.99999999999997, 8.2*60 == 491.99999999999994):
     # all of them are a whole number of microseconds, the resolution of datetime
     inp["period"] = rng.choice(PERIODS)
     inp["constraints"] = rand_constraints(rng, inp["stations"])
+    if cancel is not None and not any(str(cancel["station"]) in c["coefs"] for c in inp["constraints"]):
+        if len(inp["constraints"]) >= 5:
+            inp["constraints"].pop()
+        inp["constraints"].append(dict(coefs={str(cancel["station"]): 1, str(rng.randrange(len(inp["stations"]))): 1},
+                                       limit=100))
     inp["cname_scheme"] = rng.choice([0, 1, 1, 2, 2, 3])
     for j, c in enumerate(inp["constraints"]):
         c["name"] = cname(j, inp)
@@ -116,6 +143,17 @@ def gen_input(rng, tier):
     inp["nema_queries"] = nema
     inp["thresholds"] = [0.1, 0.0, rng.choice([1e-3, 0.5, 2.0]), round(rng.uniform(0, 20), 3), -1.0]
     inp["snap_pick"] = rng.random()
+    # the direct network entry point ChargingNetwork.constraint_current(rates, constraints, time_indices) on a subset of
+    # the periods (for the cancellation family: the pairs of periods whose rates cancel)
+    if cancel is not None:
+        a = cancel["arrival"]
+        inp["direct_ti"] = [[a, a + 1], [a + 1, a], list(range(a, a + 2 * cancel["k"]))]
+        if m >= 1:
+            j = [j for j, c in enumerate(inp["constraints"]) if str(cancel["station"]) in c["coefs"]][0]
+            inp["nema_queries"].append([j, rng.choice(names), rng.choice(names)])
+            inp["cc_queries"].append([False, [j]])
+    else:
+        inp["direct_ti"] = [sorted(rng.sample(range(8), rng.randint(1, 3))), [rng.randrange(6)]]
     if rng.random() < 0.3:
         # the finished run is passed through to_json()/from_json(); the analysis functions are applied to the reloaded object
         inp["json"] = "final"
@@ -313,6 +351,17 @@ def analyse(inp):
         dts = an.datetimes_array(sim)
         start = np.datetime64(sim.start.replace(tzinfo=None))
         out["minutes_us"] = [int((d - start).astype("timedelta64[us]").astype("int64")) for d in dts]
+        direct = []
+        if net.constraint_matrix is not None:
+            W_ = int(sim.charging_rates.shape[1])
+            for ti in inp.get("direct_ti", []):
+                ti = [t for t in ti if t < W_]
+                if not ti:
+                    continue
+                r = net.constraint_current(np.array(sim.charging_rates), constraints=None, time_indices=list(ti))
+                r = np.asarray(r)
+                direct.append([ti, [[float(x) for x in row.real] for row in r], [[float(x) for x in row.imag] for row in r]])
+        out["direct"] = direct
         out["msgs"] = msgs
         ed = inp.get("edit")
         if ed and final and not after_edit and state.get("edited") is None:
@@ -506,6 +555,15 @@ def monitor(case):
         im = sum(ex["cmat"][j][s] * rates[s][t] * ph[s][1] for s in range(n))
         return re, im
     index = ex["cindex"]
+    for ti, res_re, res_im in ex.get("direct", []):
+        if len(res_re) != len(index):
+            return "network.constraint_current(time_indices=%r) returned %d rows for %d constraints" % (ti, len(res_re), len(index))
+        for j in range(len(index)):
+            for col, t in enumerate(ti):
+                re, im = phase_sum(j, t)
+                if not (close(res_re[j][col], re) and close(res_im[j][col], im)):
+                    return ("network.constraint_current(rates, time_indices=%r) row %d, period %d = %r, phase-aware sum = %r"
+                            % (ti, j, t, complex(res_re[j][col], res_im[j][col]), complex(re, im)))
     for (flag, ids), items in zip(inp["cc_queries"], ex["cc"]):
         if isinstance(items, str):
             if ex["cmat_present"]:
